@@ -19,7 +19,7 @@ from krrood.entity_query_language.entity import let, entity
 from krrood.entity_query_language.quantify_entity import an
 from krrood.entity_query_language.symbol_graph import SymbolGraph
 
-FIELD_KIND = {(p["cls"], p["field"]): p["kind"] for p in oworld.ONTOLOGY["properties"].values()}
+FIELD_KIND = {key: oworld.ONTOLOGY["properties"][name]["kind"] for key, name in oworld.FIELD_TO_PROPERTY.items()}
 ALL_CLASSES = dict(oworld.HIERARCHY, **oworld.ONTOLOGY_CLASSES)
 
 
@@ -103,7 +103,7 @@ class World:
         if kind is None:
             return False
         prop = oworld.ONTOLOGY["properties"][oworld.FIELD_TO_PROPERTY[(cls_name, field)]]
-        if type(t).__name__ != prop["range"]:
+        if not oworld.is_a(type(t).__name__, prop["range"]):
             return False
         self.counters.inc("op.relate." + how)
         if how == "direct":
